@@ -1150,14 +1150,17 @@ def gen_macro_value_program(seed, start, count):
         if kind == 'default_expr':
             head = '#[derive(Ex)] #[derive_ex(Default, Debug, Clone)]' if derive else '#[derive_ex(Default, Debug, Clone)]'
             decl = (f'macro_rules! mk {{ ($e:expr, $l:literal, $p:path) => {{ {head} pub struct X {{ #[default($e * 2)] pub a: i32, '
-                    f'#[default($l)] pub s: String, #[default($p)] pub k: i64, pub arr: [u8; $e * 2], #[default(-$e)] pub m: i32 }} }} }}\n'
+                    f'#[default($l)] pub s: String, #[default($p)] pub k: i64, pub arr: [u8; $e * 2], #[default(-$e)] pub m: i32, '
+                    f'#[default(Some($e * 2))] pub o: Option<i32>, #[default(($e * 3, [$e * 2; 2]))] pub t: (i32, [i32; 2]), '
+                    f'#[default({{ let v = $e * 2; v + 1 }})] pub blk: i32 }} }} }}\n'
                     f' mk!({e_arg}, "x", K8);')
             check = (f'  let x = X::default();\n'
                      f'  n += 1; if x.a != ({e_arg}) * 2 {{ println!("{mod} FAIL #[default($e * 2)] with $e = {e_arg} gave {{}}", x.a); }}\n'
                      f'  n += 1; if x.m != -({e_arg}) {{ println!("{mod} FAIL #[default(-$e)] gave {{}}", x.m); }}\n'
                      f'  n += 1; if x.s != "x" || x.k != 7 {{ println!("{mod} FAIL default from a $l:literal / $p:path fragment"); }}\n'
                      f'  n += 1; if x.arr.len() != (({e_arg}) * 2) as usize {{ println!("{mod} FAIL [u8; $e * 2] has {{}} elements", x.arr.len()); }}\n'
-                     f'  n += 1; if x.clone().arr.len() != x.arr.len() {{ println!("{mod} FAIL clone"); }}\n')
+                     f'  n += 1; if x.clone().arr.len() != x.arr.len() {{ println!("{mod} FAIL clone"); }}\n'
+                     f'  n += 1; if x.o != Some(({e_arg}) * 2) || x.t != (({e_arg}) * 3, [({e_arg}) * 2; 2]) || x.blk != ({e_arg}) * 2 + 1 {{ println!("{mod} FAIL a fragment nested in the parentheses / brackets / braces of a default value: {{:?}} {{:?}} {{}}", x.o, x.t, x.blk); }}\n')
             traits = ['Default', 'Debug', 'Clone']
         elif kind == 'by_expr':
             head = '#[derive(Ex)] #[derive_ex(PartialEq, Debug)]' if derive else '#[derive_ex(PartialEq, Debug)]'
@@ -1193,6 +1196,57 @@ def gen_macro_value_program(seed, start, count):
         body = f'pub mod {mod} {{ use super::*;\n {decl}\n pub fn run() {{ let mut n = 0u32;\n{check}  println!("{mod} ok {{}}", n); }}\n}}\n'
         src += body
         cases.append(dict(mod=mod, item=decl, traits=traits, shape=kind + ('/derive' if derive else '/attr'), raw=False))
+    src += 'fn main() { ' + ' '.join(f"{c['mod']}::run();" for c in cases) + ' }\n'
+    return src, cases
+
+
+def gen_macro_twin_program(seed, start, count):
+    """One macro body, three derivations: the attribute macro, `#[derive(Ex)]`, and the standard derive.  The item comes out
+    of `macro_rules!` with `$n:expr` / `$t:ty` fragments inside array and reference types and carries no helper attribute:
+    the three types must have the same size and behave the same (C12: a drop-in for the standard derives; C15: the same
+    impls through either entry point) — also when every fragment sits inside brackets."""
+    rng = random.Random(seed * 6000029 + start)
+    src = ('#![allow(dead_code, unused_imports, unused_variables, unused_parens, non_snake_case)]\n'
+           'use derive_ex::{derive_ex, Ex};\nuse std::fmt::Debug;\n'
+           'pub fn obs<T: Debug>(v: &T) -> String { format!("{:?}|{:#?}|{}", v, v, ::core::mem::size_of::<T>()) }\n')
+    cases = []
+    for idx in range(start, start + count):
+        mod = f'c{idx}'
+        a, b = rng.randrange(1, 4), rng.randrange(1, 4)
+        n_arg = rng.choice([f'{a} + {b}', f'{a} + {b}', f'{a + b}', f'{a} | {b}', f'({a} + {b})'])
+        t_arg = rng.choice(['u8', 'u16', '(u8, u8)', 'Option<u8>'])
+        tr = ['Clone', 'Debug'] + [t for t in ['PartialEq', 'Default', 'Hash', 'PartialOrd'] if rng.random() < 0.6]
+        if 'PartialOrd' in tr and 'PartialEq' not in tr:
+            tr.append('PartialEq')
+        shape = rng.choice(['brackets_only', 'brackets_only', 'mixed', 'enum'])
+        if shape == 'brackets_only':
+            body = 'pub struct $name { pub a: [u8; $n * 2], pub c: [$t; $n + 1] }'
+            mk = 'X { a: [1; $n * 2], c: [<$t>::default(); $n + 1] }'
+        elif shape == 'mixed':
+            body = 'pub struct $name { pub a: [u8; $n * 2], pub b: Option<$t>, pub c: ($t, [u8; $n]) }'
+            mk = 'X { a: [1; $n * 2], b: None, c: (<$t>::default(), [2; $n]) }'
+        else:
+            body = 'pub enum $name { A([u8; $n * 2]), B { v: [$t; $n + 1] } }'
+            mk = 'X::A([1; $n * 2])'
+            tr = [t for t in tr if t != 'Default']
+        tl = ', '.join(tr)
+        decl = (f'macro_rules! mk {{ ($m:ident, $name:ident, $n:expr, $t:ty, $($h:tt)*) => {{ pub mod $m {{ use super::*; $($h)* {body} '
+                f'pub fn mk() -> X {{ {mk} }} pub const LEN: usize = $n * 2; }} }} }}\n'
+                f' mk!(at, X, {n_arg}, {t_arg}, #[derive_ex({tl})]);\n'
+                f' mk!(de, X, {n_arg}, {t_arg}, #[derive(Ex)] #[derive_ex({tl})]);\n'
+                f' mk!(st, X, {n_arg}, {t_arg}, #[derive({tl})]);')
+        check = ('  let (x, y, z) = (at::mk(), de::mk(), st::mk());\n'
+                 f'  n += 1; if at::LEN != (({n_arg}) * 2) as usize {{ println!("{mod} FAIL the test macro itself"); }}\n'
+                 f'  n += 1; if obs(&x) != obs(&z) {{ println!("{mod} FAIL attribute macro vs standard derive: {{}} vs {{}}", obs(&x), obs(&z)); }}\n'
+                 f'  n += 1; if obs(&y) != obs(&z) {{ println!("{mod} FAIL derive(Ex) vs standard derive: {{}} vs {{}}", obs(&y), obs(&z)); }}\n'
+                 f'  n += 1; if obs(&x.clone()) != obs(&z.clone()) || obs(&y.clone()) != obs(&z) {{ println!("{mod} FAIL clone"); }}\n')
+        if 'PartialEq' in tr:
+            check += f'  n += 1; if (x == x.clone()) != (z == z.clone()) || (y == y.clone()) != (z == z.clone()) {{ println!("{mod} FAIL eq"); }}\n'
+        if 'Default' in tr:
+            check += f'  n += 1; if obs(&at::X::default()) != obs(&st::X::default()) || obs(&de::X::default()) != obs(&st::X::default()) {{ println!("{mod} FAIL default"); }}\n'
+        body_src = f'pub mod {mod} {{ use super::*;\n {decl}\n pub fn run() {{ let mut n = 0u32;\n{check}  println!("{mod} ok {{}}", n); }}\n}}\n'
+        src += body_src
+        cases.append(dict(mod=mod, item=decl, traits=tr, shape=shape, raw=False))
     src += 'fn main() { ' + ' '.join(f"{c['mod']}::run();" for c in cases) + ' }\n'
     return src, cases
 
